@@ -10,7 +10,7 @@ The Lean model is lean/ThermoVerif/Model/Links.lean.
 from __future__ import annotations
 import pickle, warnings, itertools
 from fractions import Fraction
-from harness.core import Case, ImplResult, frac
+from harness.core import Case, ImplResult, frac, close
 
 PID = 'C13'
 LEAN_MODULES = ['ThermoVerif.Props.C13']
@@ -30,10 +30,19 @@ ASSUMPTIONS = [
     'domain: link_with between streams of different packages, flow-linking multi-phase streams with different phase '
     'sets, and copy_like that would change the phase set of a multi-phase stream whose flow array is shared with '
     'another indexer are outside the property (both sides answer `skip`)',
-    'from_streams, copy_flow and units/total_flow constructor arguments are not generated; IDs of unnamed streams '
-    'are not observed; phase views ms[phase] are not operands of the modelled operations: the oracle (real objects '
-    'only) checks after every operation that every phase view of every multi-phase stream is still attached to its '
-    'stream (same row object, same thermal condition, same values)',
+    'copy_flow is not generated; IDs of unnamed streams are not observed; units= is generated with molar units only in '
+    'the correspondence (exact arithmetic), mass units and total_flow are checked by the oracle with a tolerance '
+    '(`ctorprobe`); from_streams is the last operation of a case and needs streams of one package (else `skip`)',
+    'phase views ms[p] (`view i p`) are model objects: the dump shows, for every stream, the row object and thermal '
+    'condition each handed-out view is bound to (compared with the model after every operation); the oracle also checks '
+    'on the real objects that every such view is attached to its stream, except for a stream whose flows were re-bound '
+    'because its proxy partner was flow-linked (hypothesis NoAliasRelink of the theorem views_follow_parent); views '
+    'are not operands of copy / copy_like / link themselves',
+    'Reaction / ParallelReaction / Thermo / Chemical pickles: the adapter sends the slots read from the real object '
+    'as the pickle arguments, the model rebuilds slot-wise (unset stays unset; for Chemical every slot through '
+    'getattr(..., None)), the answer is compared with the slots of the really unpickled object (values by a '
+    'fingerprint: primitives by repr, model objects by type and a sample evaluation); CompiledChemicals: chemicals with '
+    'the names they answer to and the groups go to the model, the index of every name is compared after the round trip',
     'after every operation the oracle also checks, on the real objects, that (i) ID-keyed access (imol[ID], '
     'imol[phase, ID], imol[phase, IDs]) agrees with the raw flow data of every stream, visiting the streams in both '
     'orders, and (ii) pairwise sharing of flow data / phase container / thermal condition is exactly what the links, '
@@ -88,6 +97,21 @@ def setup():
                                                         check_atomic_balance=False, check_mass_balance=False)])]
     EXTRA['chem'] = [chems[n] for n in NAMES]
     EXTRA['thermo'] = [TH[k] for k in ('A', 'B', 'C', 'D')]
+    # chemicals with user-set data, a locked state, a blank (user-defined) chemical; not cached, so that the
+    # aliases set below do not leak into the packages of the streams
+    e = tmo.Chemical('Ethanol'); e.Hf = -1234.5; e.at_state('l')
+    y = tmo.Chemical.blank('Yeast', phase='s', formula='CH1.61O0.56N0.16', Hf=-130412.73); y.default()
+    wtr = tmo.Chemical('Water'); wtr.Tb = 373.0
+    EXTRA['chem'] += [e, y, wtr]
+    cc = tmo.Chemicals([wtr, e, tmo.Chemical('Methanol'), y]); cc.compile()
+    cc.set_alias('Water', 'H2O_x')
+    cc.define_group('Alcohols', ['Ethanol', 'Methanol'], composition=[0.25, 0.75])
+    cc2 = tmo.Chemicals([tmo.Chemical('Methanol'), tmo.Chemical('Water')]); cc2.compile(); cc2.set_alias('Methanol', 'MeOH_x')
+    EXTRA['cchems'] = [cc, cc2, TH['C'].chemicals]
+    EXTRA['thermo'] += [tmo.Thermo(cc), tmo.Thermo(cc2)]
+    tmo.settings.set_thermo(EXTRA['thermo'][-2])
+    EXTRA['rxn'].append(rxn.Reaction('Ethanol -> H2O_x', reactant='Ethanol', X=0.5, check_atomic_balance=False,
+                                     check_mass_balance=False, correct_atomic_balance=False))
     tmo.settings.set_thermo(TH['A'])
 
 
@@ -264,16 +288,10 @@ class World:
         a third stream; what views handed out by such a stream should follow is not determined by the property.)"""
         for j, s in enumerate(self.streams):
             if not is_multi(s) or j in self.view_excluded:
-                for key in [k for k in self.views if k[0] == j]: del self.views[key]
                 continue
             for k, p in enumerate(phases_of(s)):
-                v = self.views.get((j, p))
-                if v is None:
-                    try:
-                        v = s[p]
-                    except Exception as e:
-                        raise OracleFail(f'{op}:view-raises', f'after `{line}` stream {j}[{p!r}] raised {e!r}')
-                    self.views[(j, p)] = v
+                v = (getattr(s, '_streams', None) or {}).get(p)
+                if v is None: continue
                 row = s._imol.data.rows[k]
                 if v._imol.data.dct is not row.dct:
                     raise OracleFail(f'{op}:view-stale-flows', f'after `{line}` the phase view {j}[{p!r}] (obtained earlier) is '
@@ -309,8 +327,14 @@ class World:
             ids = '.'.join(str(canon(o)) for o in objs)
             cf = ','.join(f'{k}:{frac(v)}' for k, v in sorted(cf_of(s).items()))
             sid = sid_of(s)
+            vd = getattr(s, '_streams', None) or {}
+            vparts = []
+            for ph in PH_ORDER:
+                if ph in vd:
+                    v = vd[ph]
+                    vparts.append(f'{ph}:{canon(v._imol.data.dct)}.{canon(v._thermal_condition)}')
             parts.append(f'{i}={"M" if is_multi(s) else "S"};{body}{extra};{frac(s.T)};{frac(s.P)};{frac(s.price)};'
-                         f'{{{cf}}};{"-" if sid is None else sid};@{ids}')
+                         f'{{{cf}}};{"-" if sid is None else sid};@{ids};v[{",".join(vparts)}]')
         return ' '.join(parts)
 
 
@@ -378,6 +402,8 @@ def apply(W: World, line: str):
         mentioned = [int(t[1])]
     elif op in ('copylike', 'copytc', 'link'):
         mentioned = [int(t[1]), int(t[2])]
+    elif op == 'fromstreams':
+        mentioned = [int(x) for x in t[1].split(',')]
     if any(i >= len(S) for i in mentioned):
         return 'err=BadStream'
     # frame: streams not mentioned that share nothing with the mentioned ones must not change
@@ -406,7 +432,15 @@ def apply(W: World, line: str):
         return 'ok ' + W.show()
 
     if op == 'new':
-        kind, sid, pkg, phases, flows, T, P, price, cf = t[1:]
+        kind, sid, pkg, phases, flows, T, P, price, cf = t[1:10]
+        extras = {x.split(':')[0]: x.split(':')[1:] for x in t[10:]}
+        units = total = None
+        factor = Fraction(1)
+        if 'u' in extras:
+            basis, fct = extras['u']
+            factor = Fraction(fct)
+            units = {('k', 1): 'kmol/hr', ('k', 1000): 'mol/hr', ('m', 1): 'kg/hr', ('m', 1000): 'g/hr'}[(basis, int(factor))]
+        if 't' in extras: total = fl(extras['t'][0])
         th = TH[pkg_name(pkg)]
         ID = None if sid == '-' else f'q{sid}'
         cfd = None if cf == '-' else {f'k{k}': fl(v) for k, v in parse_pairs(cf)}
@@ -416,12 +450,12 @@ def apply(W: World, line: str):
         if kind == 'S':
             kw = {ID_OF[c]: fl(v) for c, v in (per[0] if per else [])}
             s = tmo.Stream(ID, phase=phs[0], T=fl(T), P=fl(P), price=fl(price), thermo=th,
-                           characterization_factors=cfd, **kw)
+                           characterization_factors=cfd, units=units, total_flow=total, **kw)
         else:
             sphs = sorted(set(phs))
             kw = {p: [(ID_OF[c], fl(v)) for c, v in per[k]] for k, p in enumerate(sphs) if k < len(per) and per[k]}
             s = tmo.MultiStream(ID, phases=tuple(phs), T=fl(T), P=fl(P), price=fl(price), thermo=th,
-                                characterization_factors=cfd, **kw)
+                                characterization_factors=cfd, units=units, total_flow=total, **kw)
         S.append(s)
         tag = 'S' if kind == 'S' else 'M'
         if s.price != fl(price): raise OracleFail(f'new/{tag}:price', f'price given {fl(price)} stored {s.price}')
@@ -431,6 +465,17 @@ def apply(W: World, line: str):
                                               f'stream holds {got}')
         if (s.T, s.P) != (fl(T), fl(P)): raise OracleFail(f'new/{tag}:TP', 'T/P given at construction not stored')
         if sid_of(s) != (None if sid == '-' else int(sid)): raise OracleFail(f'new/{tag}:ID', 'ID not stored')
+        # the flows given (molar units: exact): value * (total / sum of the given values) / factor of the unit
+        given = [dict(x) for x in per] + [{}] * 8
+        tot_given = sum((sum(d.values(), Fraction(0)) for d in given), Fraction(0))
+        scale = Fraction(1)
+        if total is not None and (total or units) and tot_given: scale = Fraction(total) / tot_given
+        if 'u' not in extras or extras['u'][0] == 'k':
+            want = tuple(tuple(sorted((c, v * scale / factor) for c, v in given[k].items() if v)) for k in range(len(phases_of(s))))
+            got = tuple(tuple(sorted((c, Fraction(v)) for c, v in row_dict(s, r).items())) for r in rows_of(s))
+            if got != want:
+                raise OracleFail(f'new/{tag}:flows' + ('-units' if units else '') + ('-total' if total is not None else ''),
+                                 f'constructor given {per} units={units} total_flow={total} stores {got}, expected {want}')
         E.new()
         return finish()
 
@@ -671,15 +716,54 @@ def apply(W: World, line: str):
             raise OracleFail(f'pickle/{k}:keyed-not-equal', 'read by chemical ID the unpickled stream differs from the original')
         S.append(c); E.new()
 
+    elif op == 'fromstreams':
+        idx = [int(x) for x in t[1].split(',')]
+        if any(i >= len(S) for i in idx): return 'err=BadStream'
+        ins = [S[i] for i in idx]
+        if any(x.chemicals is not ins[0].chemicals for x in ins): return 'skip'   # one package is a precondition
+        bad = (not ins) or any(is_multi(x) for x in ins) or len({phases_of(x)[0] for x in ins}) != len(ins)
+        try:
+            m = tmo.MultiStream.from_streams(ins)
+        except Exception as e:
+            if bad: return 'err=ValueError'      # rejected (ValueError / RuntimeError for a multi-phase stream)
+            raise OracleFail(f'fromstreams:raises-{type(e).__name__}', f'from_streams raised {e!r}')
+        if bad: raise OracleFail('fromstreams:no-error', 'from_streams accepted an empty list / a multi-phase stream / two streams of one phase')
+        want = tuple(sorted(phases_of(x)[0] for x in ins))
+        if phases_of(m) != want: raise OracleFail('fromstreams:phases', f'phases {phases_of(m)}, expected {want}')
+        for x in ins:
+            k = phases_of(m).index(phases_of(x)[0])
+            if m._imol.data.rows[k].dct is not x._imol.data.dct:
+                raise OracleFail('fromstreams:flows', 'a phase of the new stream is not the flow data of the given stream')
+            if x._thermal_condition is not m._thermal_condition or m._thermal_condition is not ins[0]._thermal_condition:
+                raise OracleFail('fromstreams:TP', 'the thermal condition is not the first stream\'s, shared by all')
+        S.append(m); E.new()
+        for i in idx: E.t[i]['tc'] = E.t[idx[0]]['tc']
+        E.t[-1]['tc'] = E.t[idx[0]]['tc']
+    elif op == 'ctorprobe':
+        # oracle-only: mass units and total_flow in the constructors (inexact arithmetic: tolerance), object discarded
+        kind, pkgn, unit, tot = t[1], t[2], t[3], fl(t[4])
+        th = TH[pkgn]
+        vals = parse_pairs(t[5])
+        fct = {'kg/hr': 1., 'g/hr': 1000., 'kmol/hr': 1., 'mol/hr': 1000.}[unit]
+        if kind == 'S':
+            x = tmo.Stream(None, thermo=th, units=unit, total_flow=tot, **{ID_OF[c]: fl(v) for c, v in vals})
+        else:
+            x = tmo.MultiStream(None, thermo=th, units=unit, total_flow=tot,
+                                l=[(ID_OF[c], fl(v)) for c, v in vals[:1]], g=[(ID_OF[c], fl(v)) for c, v in vals[1:]])
+        have = (x.F_mass if 'g' in unit and 'mol' not in unit else x.F_mol) * fct
+        if not close(have, tot, 1e-9, 1e-12):
+            raise OracleFail(f'ctorprobe/{kind}:total-{unit.split("/")[0]}',
+                             f'constructor with units={unit!r}, total_flow={tot} gives a total of {have} {unit}')
+        return None
     elif op == 'view':
-        # oracle-only: somebody takes a phase view (nothing for the model; held views are checked after every op)
+        # somebody takes a phase view ms[p]
         i, ph = int(t[1]), t[2]
-        if i < len(S) and is_multi(S[i]) and ph in phases_of(S[i]):
-            try:
-                v = S[i][ph]
-            except Exception as e:
-                raise OracleFail(f'view:raises-{type(e).__name__}', f'stream {i}[{ph!r}] raised {e!r}')
-            if i not in W.view_excluded: W.views.setdefault((i, ph), v)
+        if i >= len(S): return 'err=BadStream'
+        if not (is_multi(S[i]) and ph in phases_of(S[i])): return 'skip'
+        try:
+            S[i][ph]
+        except Exception as e:
+            raise OracleFail(f'view:raises-{type(e).__name__}', f'stream {i}[{ph!r}] raised {e!r}')
     elif op == 'pickleobj':
         kind, n = t[1], int(t[2])
         obj = EXTRA[kind][n % len(EXTRA[kind])]
@@ -687,6 +771,11 @@ def apply(W: World, line: str):
             c = pickle.loads(pickle.dumps(obj))
         except Exception as e:
             raise OracleFail(f'pickleobj/{kind}:raises-{type(e).__name__}', f'pickling round trip raised {e!r}')
+        if kind == 'cchems':
+            model_line, answer, deep = cchems_lines(obj, c)
+            if deep: raise OracleFail(f'pickleobj/cchems:{deep[0]}', f'unpickled CompiledChemicals: {deep[1]}')
+            return ('MODEL', model_line, answer)
+        model_line, answer = slot_lines(kind, obj, c)
         b = obj_state(kind, obj)
         try:
             a = obj_state(kind, c)
@@ -695,9 +784,90 @@ def apply(W: World, line: str):
         if a != b:
             diff = [k for k in b if a.get(k) != b[k]]
             raise OracleFail(f'pickleobj/{kind}:{diff[0]}', f'unpickled {kind} differs in {diff}: {[(a.get(k), b[k]) for k in diff][:2]}')
+        return ('MODEL', model_line, answer)
     else:
         raise ValueError('unknown op ' + line)
     return finish()
+
+
+_UNSET = object()
+
+
+def fingerprint(v):
+    """a comparable description of a slot value (values of model objects: their type and a sample evaluation)"""
+    import numpy as np
+    if v is _UNSET: return '<unset>'
+    if v is None or isinstance(v, (bool, int, float, str)): return repr(v)
+    if isinstance(v, np.ndarray): return 'array' + repr(v.tolist())
+    if isinstance(v, (tuple, list)): return type(v).__name__ + '(' + ','.join(fingerprint(x) for x in v) + ')'
+    if isinstance(v, (set, frozenset)): return 'set(' + ','.join(sorted(fingerprint(x) for x in v)) + ')'
+    if isinstance(v, dict): return 'dict(' + ','.join(sorted(fingerprint(k) + ':' + fingerprint(x) for k, x in v.items())) + ')'
+    if isinstance(v, tmo.Chemical): return f'Chemical({v.ID},{v.CAS},{v.locked_state})'
+    if hasattr(v, 'CASs') and hasattr(v, 'IDs'): return f'{type(v).__name__}{tuple(v.IDs)}'
+    if hasattr(v, 'dct') and hasattr(v, 'size'): return f'sparse{sorted(v.dct.items())}/{v.size}'
+    if hasattr(v, 'rows'): return 'sparsearray(' + ','.join(fingerprint(r) for r in v.rows) + ')'
+    out = type(v).__name__
+    if callable(v):
+        for args in ((300.,), ('l', 300., 101325.), (300., 101325.)):
+            try:
+                out += '=' + repr(v(*args)); break
+            except Exception:
+                continue
+    return out
+
+
+def all_slots(cls):
+    out = []
+    for k in cls.mro()[:-1]:
+        for sl in getattr(k, '__slots__', ()):
+            if sl not in out: out.append(sl)
+    return out
+
+
+def slot_lines(kind, obj, c):
+    """protocol line for the model (slot-wise reconstruction) and the answer read from the real unpickled object"""
+    chem = kind == 'chem'
+    slots = list(type(obj).__slots__) if chem else all_slots(type(obj))
+    table = {}
+
+    def tok(v):
+        f = fingerprint(v)
+        if chem and f == 'None': return 'n'
+        if f == '<unset>': return '-'
+        return str(table.setdefault(f, len(table) + 1))
+    default = None if chem else _UNSET
+    items = [(k, tok(getattr(obj, sl, default))) for k, sl in enumerate(slots)]
+    line = f'pslots {"c" if chem else "s"} {len(slots)} ' + (','.join(f'{k}:{v}' for k, v in items if v != '-') or '-')
+    answer = 'ok ' + ','.join(f'{k}:{tok(getattr(c, sl, default))}' for k, sl in enumerate(slots))
+    return line, answer
+
+
+def cchems_lines(obj, c):
+    names = {}
+
+    def nid(x): return names.setdefault(x, len(names) + 1)
+    cas = {}
+
+    def cid(x): return cas.setdefault(x, len(cas) + 1)
+    chems = ';'.join(f'{cid(ch.CAS)}=' + '|'.join(str(nid(x)) for x in sorted({ch.ID, ch.CAS, *ch.synonyms}))
+                     for ch in obj.tuple)
+    groups = sorted(obj._group_mol_compositions)
+    gtxt = ';'.join(f'{nid(g)}=' + '|'.join(str(cid(ch.CAS)) for ch in getattr(obj, g)) for g in groups) or '-'
+    keys = list(names) + ['no_such_name']
+    line = f'pchems {chems} {gtxt} ' + ','.join(str(nid(k)) for k in keys)
+
+    def idx(o, k):
+        v = o._index.get(k)
+        if v is None: return '-'
+        return '|'.join(map(str, v)) if isinstance(v, (list, tuple)) else str(v)
+    answer = 'ok ' + ','.join(f'{nid(k)}:{idx(c, k)}' for k in keys)
+    deep = None
+    for g in groups:
+        a = c._group_mol_compositions.get(g)
+        if a is None or list(a) != list(obj._group_mol_compositions[g]):
+            deep = ('group', f'group {g!r} has composition {a}, original {list(obj._group_mol_compositions[g])}')
+    if tuple(c.IDs) != tuple(obj.IDs): deep = ('IDs', f'{c.IDs} vs {obj.IDs}')
+    return line, answer, deep
 
 
 def obj_state(kind, o):
@@ -752,8 +922,10 @@ def run_ops(ops):
             outs.append('dead'); model_in.append(line); continue
         try:
             if line.startswith(ORACLE_ONLY):
-                apply(W, line)
-                continue          # oracle-only op: nothing for the model
+                r = apply(W, line)
+                if isinstance(r, tuple) and r[0] == 'MODEL':    # the model sees the pickle arguments, not the op
+                    model_in.append(r[1]); outs.append(r[2])
+                continue
             o = apply(W, line)
         except OracleFail as f:
             failures.append({'signature': f.sig, 'op_index': len(model_in), 'what': f'`{line}`: {f.what}'})
@@ -764,12 +936,12 @@ def run_ops(ops):
             if line.startswith(ORACLE_ONLY): raise
             o = 'err=' + errname(e)
         model_in.append(line); outs.append(o)
-        if o.startswith('err='): dead = True
+        if o.startswith('err=') or (line.startswith('fromstreams') and o != 'skip'): dead = True
     return W, model_in, outs, failures
 
 
-ORACLE_ONLY = ('pickleobj', 'view')
-INTERESTING = ('copy', 'copyto', 'copylike', 'copytc', 'link', 'unlink', 'proxy', 'flowproxy', 'pickle', 'pickleobj')
+ORACLE_ONLY = ('pickleobj', 'ctorprobe')
+INTERESTING = ('fromstreams', 'ctorprobe', 'copy', 'copyto', 'copylike', 'copytc', 'link', 'unlink', 'proxy', 'flowproxy', 'pickle', 'pickleobj')
 
 
 def run_impl(case: Case) -> ImplResult:
@@ -836,6 +1008,30 @@ def gen_new(rng, kind=None, pkg=None, phases=None, sid=None, common_only=False):
     return f'new M {sidt} {pkg_tok(pkg)} {phs} {fl_} {T} {P} {price} {cf}'
 
 
+def gen_new_units(rng, kind=None, pkg=None, sid=None):
+    """a constructor call with `units=` (molar units, so that the arithmetic is exact) and/or `total_flow=`"""
+    kind = kind or rng.choice('SM')
+    pkg = pkg or rng.choice(['A', 'B', 'C', 'D'])
+    T, P = tok(dy(rng, 250, 450, 2)), tok(dy(rng, 50000, 300000, 0))
+    factor = rng.choice([None, 1, 1000])
+    with_total = factor is None or rng.random() < 0.6
+    unit_val = Fraction(125) if factor == 1000 else Fraction(1, 8)
+    ids = PKG_IDS[pkg]
+    phs = rng.choice(SINGLE_PHASES) if kind == 'S' else rng.choice(['g,l', 'l,s', 'g,l,s', 'L,g'])
+    nph = len(phs.split(','))
+    specs, total = [], Fraction(0)
+    for _ in range(nph):
+        chosen = rng.sample(ids, rng.randrange(1, len(ids) + 1))
+        vals = [(c, unit_val * rng.randrange(1, 40)) for c in chosen]
+        total += sum(v for _, v in vals)
+        specs.append(','.join(f'{c}:{tok(v)}' for c, v in vals))
+    extras = []
+    if factor is not None: extras.append(f'u:k:{factor}')
+    if with_total: extras.append(f't:{tok(total * rng.choice([Fraction(1, 2), 1, 2, 4]))}')
+    sidt = '-' if sid is None else str(sid)
+    return f'new {kind} {sidt} {pkg_tok(pkg)} {phs} {";".join(specs)} {T} {P} 0 - ' + ' '.join(extras)
+
+
 def restrict_common(line, rng):
     """make the flows of a `new` line use only chemicals 1 and 3 (present in every package)"""
     t = line.split(' ')
@@ -894,8 +1090,11 @@ def gen_history(rng, length):
     for _ in range(n0):
         pkg = base if rng.random() < 0.6 else rng.choice(['A', 'B', 'C', 'D'])
         sid += 1
-        line = gen_new(rng, pkg=pkg, sid=(sid if rng.random() < 0.5 else None))
-        if rng.random() < 0.7: line = restrict_common(line, rng)
+        if rng.random() < 0.12:
+            line = gen_new_units(rng, pkg=pkg, sid=(sid if rng.random() < 0.5 else None))
+        else:
+            line = gen_new(rng, pkg=pkg, sid=(sid if rng.random() < 0.5 else None))
+            if rng.random() < 0.7: line = restrict_common(line, rng)
         do(line, pkg)
     for _ in range(length):
         if not alive[0]: break
@@ -943,7 +1142,15 @@ def gen_history(rng, length):
             else:
                 do(gen_mutation(rng, n, pkgs, W))
         else:
-            do(f'pickleobj {rng.choice(["rxn", "prxn", "chem", "thermo"])} {rng.randrange(4)}')
+            do(f'pickleobj {rng.choice(["rxn", "prxn", "chem", "thermo", "cchems"])} {rng.randrange(8)}')
+    if alive[0] and rng.random() < 0.08:
+        singles = [j for j, x in enumerate(W.streams) if not is_multi(x)]
+        if singles:
+            base = rng.choice(singles)
+            same = [j for j in singles if W.streams[j].chemicals is W.streams[base].chemicals and j != base]
+            pick = [base] + rng.sample(same, min(len(same), rng.randrange(0, 3)))
+            if rng.random() < 0.1 and W.streams: pick.append(rng.randrange(len(W.streams)))
+            do('fromstreams ' + ','.join(map(str, pick)))
     return Case(ops, {})
 
 
@@ -976,9 +1183,23 @@ def grid_cases(rng):
                 ops.append(f'unlink {rng.randrange(2)}')
                 ops.append(gen_mutation(rng, 2, [pkg, pkg]))
                 out.append(Case(ops, {'tags': ['grid:' + op]}))
-    for kind in ('rxn', 'prxn', 'chem', 'thermo'):
-        for n in range(4):
+    for kind in ('rxn', 'prxn', 'chem', 'thermo', 'cchems'):
+        for n in range(8):
             out.append(Case([f'pickleobj {kind} {n}'], {'tags': ['grid:pickleobj']}))
+    # constructors with units= / total_flow=; from_streams
+    for kind in 'SM':
+        for pkg in 'ABCD':
+            for _ in range(6):
+                out.append(Case([gen_new_units(rng, kind, pkg, 1), gen_mutation(rng, 1, [pkg])], {'tags': ['grid:units']}))
+    for unit in ('kg/hr', 'g/hr', 'mol/hr', 'kmol/hr'):
+        for kind in 'SM':
+            out.append(Case([f'ctorprobe {kind} A {unit} {tok(dy(rng, 1, 64))} 1:{tok(dy(rng, 1, 32))},2:{tok(dy(rng, 1, 32))}'],
+                            {'tags': ['grid:ctorprobe']}))
+    for phs in (['l', 'g'], ['s', 'l', 'g'], ['L', 'l'], ['g'], ['l', 'l']):
+        ops = [gen_new(rng, 'S', 'A', ph, k + 1) for k, ph in enumerate(phs)]
+        ops.append(gen_mutation(rng, len(phs), ['A'] * len(phs)))
+        ops.append('fromstreams ' + ','.join(str(k) for k in range(len(phs))))
+        out.append(Case(ops, {'tags': ['grid:fromstreams']}))
     # copy(thermo=...): every kind onto the same / a permuted / a larger / a smaller package
     for kind, ph in kinds:
         for src, dst in (('A', 'D'), ('D', 'A'), ('A', 'C'), ('B', 'A'), ('B', 'D'), ('A', 'A'), ('C', 'D'), ('A', 'B')):
